@@ -1374,21 +1374,7 @@ where
                         let drain = match inner.as_mut().poll_response(cx)? {
                             PollResponse::DrainWriteBuf => true,
 
-                            PollResponse::DoNothing => {
-                                // KEEP_ALIVE is set in send_response_inner if client allows it
-                                // FINISHED is set after writing last chunk of response
-                                if inner.flags.contains(Flags::KEEP_ALIVE | Flags::FINISHED) {
-                                    if let Some(timer) = inner.config.keep_alive_deadline() {
-                                        inner.as_mut().project().ka_timer.set_and_init(
-                                            cx,
-                                            sleep_until(timer.into()),
-                                            line!(),
-                                        );
-                                    }
-                                }
-
-                                false
-                            }
+                            PollResponse::DoNothing => false,
 
                             // upgrade request and goes Upgrade variant of DispatcherState.
                             PollResponse::Upgrade(req) => {
@@ -1422,6 +1408,24 @@ where
                     if inner.flags.contains(Flags::WRITE_DISCONNECT) {
                         trace!("client is gone; disconnecting");
                         return Poll::Ready(Ok(()));
+                    }
+
+                    // KEEP_ALIVE is set in poll_response once all requests are answered
+                    // FINISHED is set after writing last chunk of response
+                    //
+                    // The connection only becomes idle once the response has been written out
+                    // completely; while a slow peer is still taking bytes from the write buffer
+                    // the keep-alive timer must not run (it would cut the response short).
+                    if inner.flags.contains(Flags::KEEP_ALIVE | Flags::FINISHED)
+                        && inner.write_buf.is_empty()
+                    {
+                        if let Some(timer) = inner.config.keep_alive_deadline() {
+                            inner.as_mut().project().ka_timer.set_and_init(
+                                cx,
+                                sleep_until(timer.into()),
+                                line!(),
+                            );
+                        }
                     }
 
                     let inner_p = inner.as_mut().project();
